@@ -4,6 +4,7 @@ package decoder
 
 import (
 	"fmt"
+	"io"
 	"reflect"
 	"unsafe"
 
@@ -125,4 +126,57 @@ func VerifCacheIndex(typeptr uintptr) (index int, fast bool, size int) {
 		return 0, false, len(cachedDecoder)
 	}
 	return int((typeptr - typeAddr.BaseTypeAddr) >> typeAddr.AddrShift), true, len(cachedDecoder)
+}
+
+type verifPieceReader struct {
+	pieces [][]byte
+	fail   bool
+}
+
+func (r *verifPieceReader) Read(p []byte) (int, error) {
+	for len(r.pieces) > 0 && len(r.pieces[0]) == 0 {
+		r.pieces = r.pieces[1:]
+	}
+	if len(r.pieces) == 0 {
+		if r.fail {
+			return 0, fmt.Errorf("verif: reader failure")
+		}
+		return 0, io.EOF
+	}
+	n := copy(p, r.pieces[0])
+	r.pieces[0] = r.pieces[0][n:]
+	return n, nil
+}
+
+// VerifStreamTrace drives the raw Stream machine: ops is a sequence of 'r' (read), 's' (reset),
+// 'S' (Reset), 'a'+byte (advance the cursor by that many bytes, not beyond length). After every op
+// one line "len bufSize length offset cursor filled allRead ret window-hex" is appended.
+func VerifStreamTrace(pieces [][]byte, fail bool, ops []byte) (out []string) {
+	defer func() {
+		if r := recover(); r != nil {
+			out = append(out, "panic")
+		}
+	}()
+	s := NewStream(&verifPieceReader{pieces: pieces, fail: fail})
+	for i := 0; i < len(ops); i++ {
+		ret := "-"
+		switch ops[i] {
+		case 'r':
+			ret = fmt.Sprint(s.read())
+		case 's':
+			s.reset()
+		case 'S':
+			s.Reset()
+		case 'a':
+			i++
+			n := int64(ops[i])
+			if s.cursor+n > s.length {
+				n = s.length - s.cursor
+			}
+			s.cursor += n
+		}
+		w := s.buf[s.cursor:s.length]
+		out = append(out, fmt.Sprintf("%d %d %d %d %d %v %v %s %x", len(s.buf), s.bufSize, s.length, s.offset, s.cursor, s.filledBuffer, s.allRead, ret, w))
+	}
+	return out
 }
